@@ -339,6 +339,10 @@ impl Fx {
         fx
     }
 
+    pub(crate) fn control_state(&self) -> Arc<ControlState> {
+        self.state.clone()
+    }
+
     /// The same endpoint state around another pairing store, served on a new socket (a restart of the
     /// process as far as pairing is concerned: `ControlState::pairing` cannot be replaced in place).
     pub(crate) fn swap_pairing(&mut self, store: Arc<PairingStore>) {
